@@ -15,7 +15,8 @@ mkdir -p $(dirname $DEST)
 if [ -f $D/demo.diff ]; then git apply $D/demo.diff 2>/dev/null; fi
 cp $D/demo.rs $DEST 2>/dev/null
 NAME=$(basename $DEST .rs)
-if [[ $DEST == */tests/* ]]; then RUN="cargo test --offline -p $CRATE $@ --test $NAME"; else RUN="cargo test --offline -p $CRATE $@ --lib $NAME"; fi
+DC=${DEMO_CRATE:-$CRATE}   # the demonstration may live in another crate than the one whose existing tests are run
+if [[ $DEST == */tests/* ]]; then RUN="cargo test --offline -p $DC $@ --test $NAME"; else RUN="cargo test --offline -p $DC $@ --lib $NAME"; fi
 W=$($RUN 2>&1 | grep "test result" | tr '\n' ' ')
 git apply -R $D/patch.diff
 WO=$($RUN 2>&1 | grep "test result" | tr '\n' ' ')
